@@ -446,6 +446,7 @@ static void gen_c10(G &g) {
                 Json fx = r.chance(1, 5) ? Json::arr() : payload_damage(g, 80 + 64);
                 if (i == 0 && tiny) { fx = Json::arr(); fx.push(fx_flip((i64) (640 + g.index % 512))); }
                 if (r.chance(1, 8)) fx.push(fx1("legacyseal"));
+                if (r.chance(1, 8)) { static const u32 ov[] = {0x010000, 0x010009, 0x010101, 0x0101ff, 0x010200, 0x010300}; fx.push(fx_field("libver", ov[r.below(6)], (int) r.below(3))); }   // fragments of old writers
                 Json j = mk("SCRUB"); j.set("obj", o).set("slot", 0).set("dev", dev).set("al", pick_al(r)).set("fx", fx); g.ops.push(j);
             } else {
                 u64 s = survivors_within(g, c);
@@ -509,7 +510,14 @@ static void gen_c12(G &g) {
             if (y < 6) v = n + off[r.below(4)]; else if (y < 7) v = 0; else { static const i64 big[] = {0x7fffffffLL, 0x80000000LL, 0xffffffffLL, 32, 33, 64}; v = big[r.below(6)]; }
             fx.push(fx_field("idx", v, seal)); }
         else if (x < 34) fx.push(fx_field("beid", (i64) r.below(256), seal));
-        else if (x < 44) { u32 bv = 0x010000; if (rc.be == BE_IV || rc.be == BE_IC) bv = (2u << 16) | (13u << 8); i64 d = r.range(-1, 1); fx.push(fx_field("bever", (i64) bv + d + (r.chance(1, 4) ? 256 : 0), seal)); }
+        else if (x < 44) {
+            u32 bv = 0x010000; if (rc.be == BE_IV || rc.be == BE_IC) bv = (2u << 16) | (13u << 8);
+            unsigned y = (unsigned) r.below(4); i64 v;
+            if (y == 0) v = (i64) bv + r.range(-1, 1);
+            else if (y == 1) v = (i64) (bv ^ (1u << r.below(32)));                      // one bit anywhere in the word
+            else if (y == 2) v = (i64) (bv | ((u32) r.range(1, 255) << 24));           // same release, other top byte
+            else v = (i64) (u32) r.next();
+            fx.push(fx_field("bever", v, seal)); }
         else if (x < 54) { static const i64 d[] = {-1, 1, 256, -256, 65536}; fx.push(fx_field("libver", (i64) VER_CUR + d[r.below(5)], seal)); }
         else if (x < 58) fx.push(fx_field("mismatch", (i64) r.below(2), seal));
         else if (x < 60) fx.push(fx_field("ct", (i64) r.below(5), seal));
